@@ -8,7 +8,7 @@ From SFC.GenMarket Require Import Market.
 From SFC.GenTax Require Import Tax TaxProofs.
 From SFC.GenAsset Require Import Weighting.
 From SFC.GenMain2 Require Import Program Classes Main Ledger MainProofs Names Program2 Main2.
-From SFC.GenEmbed Require Import EmbDefs Laws ZoneEmb Block ClassEmb GenEmb.
+From SFC.GenEmbed Require Import EmbDefs JointDefs Laws ZoneEmb Block ClassEmb GenEmb.
 Import ListNotations.
 Local Open Scope string_scope.
 
@@ -117,6 +117,68 @@ Proof.
   rewrite (squeeze_exo spec Hc), (squeeze_exo _ (ok_T_clean _ _ _ Hok (is_market y) spec Hc)).
   rewrite <- (ok_T_exo _ _ _ Hok (is_market y) spec) by (unfold exo_ok; now rewrite Hc, Hl).
   rewrite (set_rhs_emb M mcode G Hok). destruct (set_rhs y n ("EXOGENOUS" ++ spec)); reflexivity.
+Qed.
+
+Theorem ic_rows_block pre post Zi l : bframe pre post Zi -> ism_ok Zi ->
+  (forall x, List.In x l -> fst (fst x) < ns) ->
+  ic_rows (pre ++ map E Zi ++ post)%list (map (shift_ic M ism) l) = rmap (map (emb_ic M)) (ic_rows Zi l).
+Proof.
+  intros HB Hism. induction l as [|[[s n] v] r IH]; intros Hl; [reflexivity|].
+  cbn [map shift_ic ic_rows]. assert (Hs : s < ns) by (apply (Hl (s, n, v)); now left).
+  rewrite (find_block M G ns J cur pre post Zi HB s Hs).
+  destruct (find_sec s Zi) as [x|] eqn:Fx; cbn [option_map]; [|reflexivity].
+  destruct (find_sec_some _ _ _ Fx) as [Hx Hsid].
+  assert (Hb : ism s = is_market x) by (rewrite <- Hsid; now apply Hism). rewrite Hb, (has_var_emb M mcode G Hok).
+  destruct (has_var x n); [|reflexivity].
+  rewrite IH by (intros y Hy; apply Hl; now right).
+  destruct (ic_rows Zi r); cbn [bind rmap map]; [|reflexivity].
+  f_equal. f_equal. unfold emb_ic. cbn [fst snd]. f_equal.
+  assert (Gx : G x) by (apply (G_in G Zi); [apply (bf_G _ _ _ _ _ _ _ _ HB)|exact Hx]).
+  now rewrite (ok_L_full _ _ _ Hok false x n Gx).
+Qed.
+
+Lemma ic_rows_app Z l1 l2 :
+  ic_rows Z (l1 ++ l2)%list = bind (ic_rows Z l1) (fun r1 => bind (ic_rows Z l2) (fun r2 => Ok (r1 ++ r2)%list)).
+Proof.
+  induction l1 as [|[[s n] v] r IH]; cbn [app ic_rows].
+  - destruct (ic_rows Z l2); reflexivity.
+  - destruct (find_sec s Z); [|reflexivity]. destruct (has_var _ n); [|reflexivity].
+    rewrite IH. destruct (ic_rows Z r); cbn [bind]; [|reflexivity]. destruct (ic_rows Z l2); reflexivity.
+Qed.
+
+Definition flow_refs_ok (f : flow) : Prop :=
+  fst (fst (fst (fst f))) < ns /\ (forall tg, snd (fst (fst (fst f))) = Some tg -> tg < ns).
+
+Theorem flow_fold_block pre post : forall fs Zi, bframe pre post Zi -> ism_ok Zi ->
+  (forall f, List.In f fs -> flow_refs_ok f) ->
+  foldM (flow_step2 J) (map (shift_flow M ism) fs) (pre ++ map E Zi ++ post)%list
+  = rmap (fun B => (pre ++ map E B ++ post)%list) (foldM flow_step fs Zi).
+Proof.
+  induction fs as [|f r IH]; intros Zi HB Hism Hr; [reflexivity|]. cbn [map foldM].
+  destruct (Hr f (or_introl eq_refl)) as [H1 H2].
+  rewrite (flow_step2_block pre post Zi f HB Hism H1 H2).
+  destruct (flow_step Zi f) as [Z1|] eqn:Ef; cbn [rmap]; [|reflexivity].
+  assert (HF : Forall2 frame Zi Z1) by (eapply zstep_frame; eapply flow_zstep; exact Ef).
+  apply IH.
+  - eapply (bframe_frame M mcode G Hok); [exact HB|exact HF|]. eapply (fx_ok_block M G ns J cur); eauto.
+  - eapply ism_ok_frame; eauto.
+  - intros x Hx. apply Hr. now right.
+Qed.
+
+Theorem exo_fold_block pre post : forall xs Zi, bframe pre post Zi -> ism_ok Zi ->
+  (forall x, List.In x xs -> fst (fst x) < ns /\ exo_ok (snd x) = true) ->
+  foldM exo_step (map (shift_exo M ism) xs) (pre ++ map E Zi ++ post)%list
+  = rmap (fun B => (pre ++ map E B ++ post)%list) (foldM exo_step xs Zi).
+Proof.
+  induction xs as [|x r IH]; intros Zi HB Hism Hr; [reflexivity|]. cbn [map foldM].
+  destruct (Hr x (or_introl eq_refl)) as [H1 H2].
+  rewrite (exo_step_block pre post Zi x HB Hism H1 H2).
+  destruct (exo_step Zi x) as [Z1|] eqn:Ef; cbn [rmap]; [|reflexivity].
+  assert (HF : Forall2 frame Zi Z1) by (eapply exo_step_frame; exact Ef).
+  apply IH.
+  - eapply (bframe_frame M mcode G Hok); [exact HB|exact HF|]. eapply (fx_ok_block M G ns J cur); eauto.
+  - eapply ism_ok_frame; eauto.
+  - intros y Hy. apply Hr. now right.
 Qed.
 
 End FlowBlock.
